@@ -260,7 +260,8 @@ func (d *vkDumper) value(v reflect.Value, depth int) {
 			}
 			ents = append(ents, ent{kd.toks, vd.toks})
 		}
-		sort.Slice(ents, func(i, j int) bool { return strings.Join(ents[i].k, " ") < strings.Join(ents[j].k, " ") })
+		key := func(e ent) string { return strings.Join(e.k, " ") + " | " + strings.Join(e.v, " ") }
+		sort.Slice(ents, func(i, j int) bool { return key(ents[i]) < key(ents[j]) })
 		for _, e := range ents {
 			d.emit(e.k...)
 			d.emit(e.v...)
@@ -426,6 +427,9 @@ func (p *vkParser) value() reflect.Value {
 		m := reflect.MakeMap(reflect.MapOf(kt, vt))
 		for i := 0; i < n; i++ {
 			k := p.value()
+			if kt.Kind() == reflect.Int {
+				k = reflect.ValueOf(i) // contents of opaque kinds are not dumped: keep the entries distinct
+			}
 			m.SetMapIndex(k, p.value())
 		}
 		return m
@@ -1322,9 +1326,9 @@ func (r *vkRunner) genRound(g *vkRng) {
 			}
 		}()
 		switch x := g.intn(100); {
-		case x < 62:
+		case x < 68:
 			t = reflect.PtrTo(c.msgType(6))
-		case x < 72:
+		case x < 80:
 			t = c.msgType(6)
 		default:
 			t = c.wildType(6)
@@ -1351,14 +1355,14 @@ func (r *vkRunner) genRound(g *vkRng) {
 }
 
 func vkRandText(g *vkRng) string {
-	alpha := "abcxyzABCXYZ0189__..  --/\t~é\x00\x7f"
+	alpha := "abcxyzABCXYZ0189__..  --/\t~\x00\x7f"
 	if g.pct(15) {
 		alpha = "ab."
 	}
 	n := g.intn(12)
 	b := make([]byte, 0, n)
 	for i := 0; i < n; i++ {
-		if g.pct(5) {
+		if g.pct(3) {
 			b = append(b, byte(g.intn(256)))
 		} else {
 			b = append(b, alpha[g.intn(len(alpha))])
